@@ -385,6 +385,37 @@ def rule_tri(repo, tier):
 
 
 @guarded
+def rule_guess(repo, tier):
+    """CG accepts a right-hand side given as a vector and makes it a column (b.unsqueeze(-1)).  The initial guess lives in the same space as
+    b: whatever rank normalisation b gets, the guess gets too, under the same condition - otherwise b - A @ x broadcasts a column against a
+    vector into an (n, n) matrix and the documented 'optional initial guess' raises for vector right-hand sides."""
+    res = RuleResult('C10.GUESS', 'CG.forward applies to the initial guess every rank normalisation it applies to b, in the same branch', floor=1)
+    f = repo.func(SOLVER, 'CG.forward')
+    pp_ = f.pos_params
+    bname, xname = pp_[2], pp_[3]
+    n = 0
+    for st in ast.walk(f.node):
+        if not isinstance(st, ast.If):
+            continue
+        for branch in (st.body, st.orelse):
+            resh = [a for a in branch if isinstance(a, ast.Assign) and any(isinstance(t, ast.Name) and t.id == bname for t in a.targets) and
+                    any(isinstance(c, ast.Call) and isinstance(c.func, ast.Attribute) and c.func.attr in ('unsqueeze', 'view', 'reshape', 'squeeze') and dotted(c.func.value) == bname
+                        for c in ast.walk(a.value))]
+            if not resh:
+                continue
+            n += 1
+            same = any(isinstance(a, ast.Assign) and any(isinstance(t, ast.Name) and t.id == xname for t in a.targets) and
+                       any(isinstance(c, ast.Call) and isinstance(c.func, ast.Attribute) and c.func.attr in ('unsqueeze', 'view', 'reshape', 'squeeze') and dotted(c.func.value) == xname
+                           for c in ast.walk(a.value)) for a in branch)
+            res.inst({'function': f.fq, 'normalisation of b': src(resh[0])[:50], 'guess normalised in the same branch': same}, src(resh[0]))
+            if not same:
+                res.add(Finding('C10.GUESS', f, '`%s` makes the vector right-hand side a column but leaves the initial guess `%s` as it came: with a vector b and a '
+                                'vector guess, b - A @ x broadcasts (n, 1) against (n,) and the solve raises' % (src(resh[0])[:50], xname), node=resh[0]))
+    if n == 0:
+        res.inst({'function': f.fq, 'rank normalisations of b': 0}, 'none')
+    return res
+
+
 def rule_conf(repo, tier):
     """history independence of the solver modules: an attribute configured by the constructor is never rebound in forward() from data of the
     current call (sizes, tensors) - the next call, on another system, would inherit it (e.g. an iteration budget frozen at the first system's 10n)"""
@@ -444,7 +475,7 @@ def _rules_core(repo, tier):
     from ..effects import rule_pure
     from ..outalias import rule_outalias
     return [rule_status(repo, tier), rule_lstsq(repo, tier), rule_zero(repo, tier), rule_stale(repo, 'C10.STALE', [(SOLVER, 'CG.forward')]),
-            rule_idx(repo, tier), rule_dispatch(repo, tier), rule_tri(repo, tier), rule_conf(repo, tier),
+            rule_idx(repo, tier), rule_dispatch(repo, tier), rule_tri(repo, tier), rule_conf(repo, tier), guarded(rule_guess)(repo, tier),
             rule_outalias(repo, 'C10.OUT', [(SOLVER, 'CG.forward')]),
             rule_pure(repo, 'C10.PURE', 'no solver writes into the matrix, right-hand side, initial guess or preconditioner it is given: a caller that '
                       'solves again with the same tensors (damping retries, warm starts) solves the same system',
